@@ -348,3 +348,10 @@ Proof.
   - apply Forall_app. split; [assumption|].
     apply Forall_forall. intros y Hy. apply Hx; [now left|assumption].
 Qed.
+
+(* DistanceLz(a, b) == LeadingZeros(Distance(a, b)) (the doc comment of DistanceLz), all lengths *)
+Lemma distance_lz_spec a : forall b, distance_lz a b = leading_zeros (distance a b).
+Proof.
+  induction a as [|x a IH]; intros [|y b]; cbn [distance_lz distance xor_bytes leading_zeros]; try reflexivity.
+  destruct (lz8 (N.lxor x y) <? 8); [reflexivity|]. f_equal. apply IH.
+Qed.
